@@ -506,86 +506,110 @@ example (cfg : Cfg ρ) :
   · rw [hfin, owns_wellKnown exEnc_ok, hagree 0, hlook]
     rfl
 
-/-! ## 11. One bus: C13's model drives C14's model (extension 2026-09-30)
+/-! ## 11. One bus: C13's model and C14's model run together (extension 2026-09-30, revised after review 3)
 
-`gen enc fgn State.init hs` turns a history `hs` of C13's model (name operations, messages, questions) into a
-history of C14's model: `connect` + Hello for a new connection (so C13's `k` is C14's `phi k = k - 1`), a
-call to the bus carrying the effects C13's model computes (`ownerEffects`) for RequestName / ReleaseName, a
-`disconnect` carrying them, an effect-free bus call for the queries, an addressed message for `send`.
-`Joint enc s r`: C14's connections are C13's (named `:1.k`, live iff connected), the counters agree, no
-rules, and `OwnersAgree`. -/
+`Linked enc s hs es` (Proofs/Bus/LookupRouteRun.lean): the history `es` of C14's model is a run of the same
+bus as the history `hs` of C13's model.  A C13 `connect` is `connect` + that connection's Hello (any such
+message); a RequestName / ReleaseName is ANY call to the bus by that connection classified `.exec effs`
+whose owner part is what C13's model computes (signals free); a `disconnect` likewise; and between these
+ANY message event of C14's model that carries no owner effect - AddMatch (so match rules exist),
+broadcasts, addressed messages of any type, a second Hello, traffic of dead or unknown connection indices.
+`Joint enc s r`: both invariants, equal counters, connection `i` of C14 carries `:1.(i+1)` and is live iff
+C13 has `i+1` connected, `OwnersAgree`.  Nothing is assumed about rules or Hello flags.
 
-/-- The joint invariant holds after every history that C13's model runs. -/
-theorem joint_bus_invariant {cfg : Cfg ρ} (hr : cfg.Repaired) (he : NameEnc enc)
-    (hne : ∀ a, enc a ≠ [] ∧ enc a ≠ BusRoute.busName) (fgn : BusRoute.Name) (hf : fgn.head? = some ':')
-    {hs : List Bus.HStep} {s : Bus.State} {outs : List Bus.HOut}
+**Why `_partial`.**  Missing from `Linked`: C14 histories in which a connection authenticates and stays
+silent, or whose first message is not Hello, while others are named (then C13's number and C14's index are
+not `k - 1` apart; the real bus and C13's model agree there - corpus 15, stream family `first-message` -
+but the joint theorem would need a map through `nameOf`).  Also by construction, not by observation: the
+owner part of the effect lists is C13's (`ownerEffects` = `Bus.ownerChanges`, which the stream
+`router-lookup-bytes` compares with the real bus through the driver command `e`).  The full statement would
+be: for EVERY history of C14's model whose effect lists are those of the name operations in it, every
+unicast goes to C13's specification owner. -/
+
+/-- Every history of C13's model has a linked history of C14's model (the statements below are not vacuous). -/
+theorem linked_history_exists {hs : List Bus.HStep} {s : Bus.State} {outs : List Bus.HOut}
     (h : Bus.runL Bus.State.init hs = .ok (s, outs)) :
-    Joint enc s (BusRoute.final cfg BusRoute.State.init (gen enc fgn Bus.State.init hs)) :=
-  joint_run hr he hne fgn hf (Joint.init enc) h
+    Linked (ρ := ρ) enc Bus.State.init hs (gen enc Bus.State.init hs) := linked_gen h
 
-/-- **Composition of C13 and C14.**  Run any history `h1` on C13's model (to `s1`) and the generated
-history on C14's model (to `r1`).  A message that a connected `c` then addresses to ANY destination `d`
-(well-known, unique, other colon name) is, in C14's model, delivered exactly once - to the connection that
-C13's SPECIFICATION names as the owner of `d` at that moment - or to nobody when the specification has no
-owner; the receiver is connected in C13's model, live in C14's and carries the unique name `:1.k`; nothing
-else changes.  (The first conjunct: this event IS what `gen` emits for `send c d` at that point.) -/
-theorem joint_bus_unicast {cfg : Cfg ρ} (hr : cfg.Repaired) (he : NameEnc enc)
-    (hne : ∀ a, enc a ≠ [] ∧ enc a ≠ BusRoute.busName) (fgn : BusRoute.Name) (hf : fgn.head? = some ':')
-    (hf2 : ∀ k, fgn ≠ BusRoute.uniqueNameOf k)
-    {h1 : List Bus.HStep} {s1 : Bus.State} {o1 : List Bus.HOut}
-    (h : Bus.runL Bus.State.init h1 = .ok (s1, o1)) {c : Bus.Conn} (hc : s1.connected c = true) (d : Bus.Dest) :
-    gen (ρ := ρ) enc fgn Bus.State.init (h1 ++ [.send c d]) =
-      gen enc fgn Bus.State.init h1 ++ [.msg (phi c) (addressedMsg (destStr enc fgn d)) (.exec [])] ∧
-    (BusRoute.step cfg (BusRoute.final cfg BusRoute.State.init (gen enc fgn Bus.State.init h1))
-        (.msg (phi c) (addressedMsg (destStr enc fgn d)) (.exec []))).1 =
-      BusRoute.final cfg BusRoute.State.init (gen enc fgn Bus.State.init h1) ∧
-    (BusRoute.step cfg (BusRoute.final cfg BusRoute.State.init (gen enc fgn Bus.State.init h1))
-        (.msg (phi c) (addressedMsg (destStr enc fgn d)) (.exec []))).2.deliveries =
+/-- The joint invariant holds after every pair of linked histories. -/
+theorem joint_bus_invariant_partial {cfg : Cfg ρ} (hr : cfg.Repaired) (he : NameEnc enc)
+    {hs : List Bus.HStep} {es : List (BusRoute.Event ρ)} (hl : Linked enc Bus.State.init hs es)
+    {s : Bus.State} {outs : List Bus.HOut} (h : Bus.runL Bus.State.init hs = .ok (s, outs)) :
+    Joint enc s (BusRoute.final cfg BusRoute.State.init es) :=
+  joint_linked hr he hl (Joint.init enc) h
+
+/-- **Composition of C13 and C14** (partial: see the section header).  Let `h1` (C13's model, to `s1`) and
+`es` (C14's model, to `r1`) be linked.  Then ANY message `m` whose destination is the string of ANY
+destination `d` (well-known, `:1.k`, other colon name; not the bus, not empty), sent by a connection `c`
+that C13 has connected, under ANY classification `op` - any type, any sender field, any body, whatever
+match rules anybody holds: C14's model delivers it exactly once, re-marshalled under the sender's true
+name `:1.c`, to the connection that C13's SPECIFICATION names as the owner of `d` at that moment - `abs s1`,
+the specification state that the specification's own run of `h1` reaches (second conjunct) - or to nobody
+when the specification has no owner; the state of C14's model does not change; the receiver is connected in
+C13's model, live in C14's and carries the unique name `:1.k` there. -/
+theorem joint_bus_unicast_partial {cfg : Cfg ρ} (hr : cfg.Repaired) (he : NameEnc enc)
+    (fgn : BusRoute.Name) (hf : fgn.head? = some ':') (hf2 : ∀ k, fgn ≠ BusRoute.uniqueNameOf k)
+    {h1 : List Bus.HStep} {es : List (BusRoute.Event ρ)} (hl : Linked enc Bus.State.init h1 es)
+    {s1 : Bus.State} {o1 : List Bus.HOut} (h : Bus.runL Bus.State.init h1 = .ok (s1, o1))
+    {c : Bus.Conn} (hc : s1.connected c = true) (d : Bus.Dest)
+    (m : BusRoute.Msg) (op : BusRoute.BusOp ρ) (hm : BusRoute.Addressed m (destStr enc fgn d)) :
+    (BusRoute.step cfg (BusRoute.final cfg BusRoute.State.init es) (.msg (phi c) m op)).1 =
+      BusRoute.final cfg BusRoute.State.init es ∧
+    Bus.Spec.RunL Bus.Spec.State.init h1 (o1.map Bus.HOut.toSpec) (Bus.abs s1) ∧
+    (BusRoute.step cfg (BusRoute.final cfg BusRoute.State.init es) (.msg (phi c) m op)).2.deliveries =
       (match (Bus.abs s1).ownerOf d with
-       | some k => [⟨phi k, .fwd (phi c)
-                      (BusRoute.remarshal (addressedMsg (destStr enc fgn d)) (BusRoute.uniqueNameOf c))⟩]
+       | some k => [⟨phi k, .fwd (phi c) (BusRoute.remarshal m (BusRoute.uniqueNameOf c))⟩]
        | none => []) ∧
     (∀ k, (Bus.abs s1).ownerOf d = some k → s1.connected k = true ∧
-      BusRoute.Live (BusRoute.final cfg BusRoute.State.init (gen enc fgn Bus.State.init h1)) (phi k) ∧
-      BusRoute.nameOf (BusRoute.final cfg BusRoute.State.init (gen enc fgn Bus.State.init h1)) (phi k)
-        = some (BusRoute.uniqueNameOf k)) := by
-  have J := joint_bus_invariant (cfg := cfg) hr he hne fgn hf h
+      BusRoute.Live (BusRoute.final cfg BusRoute.State.init es) (phi k) ∧
+      BusRoute.nameOf (BusRoute.final cfg BusRoute.State.init es) (phi k) = some (BusRoute.uniqueNameOf k)) := by
+  have J := joint_bus_invariant_partial (cfg := cfg) hr he hl h
   have hI := J.invN
-  obtain ⟨a, b⟩ := J.send hr he hne fgn hf hf2 hc d
-  refine ⟨?_, a, ?_, ?_⟩
-  · rw [gen_append fgn h]
-    simp [gen, Bus.stepL, genStep, hc]
+  obtain ⟨a, b⟩ := J.send hr he fgn hf hf2 hc d m op hm
+  refine ⟨a, Bus.lookup_follows_history h, ?_, ?_⟩
   · rw [b, Bus.routerLookup_abs hI]
     cases (Bus.abs s1).ownerOf d <;> rfl
   · intro k hk
     rw [← Bus.routerLookup_abs hI] at hk
     have hck := Bus.routerLookup_alive hI hk
-    obtain ⟨hp, _, hget, hlive⟩ := J.conn_of hck
+    obtain ⟨_, _, x, hget, hxn, hxl⟩ := J.conn_of hck
     refine ⟨hck, ?_, ?_⟩
     · show BusRoute.connected _ (phi k) = true
-      rw [BusRoute.connected_of_getElem _ _ _ hget]; exact hlive
-    · rw [BusRoute.nameOf_of_getElem _ _ _ hget]
-      show some (BusRoute.uniqueNameOf (phi k + 1)) = _
-      rw [hp]
+      rw [BusRoute.connected_of_getElem _ _ _ hget]; exact hxl
+    · rw [BusRoute.nameOf_of_getElem _ _ _ hget]; exact hxn
+
+/-- The bus's own name (review F2): in a joint state a message addressed to `org.freedesktop.DBus` is
+forwarded to nobody - whoever holds that name in C13's table (C13's `stepL (.sendBus c)` = `delivered none`,
+`Spec.StepL`: "answered by the bus and not forwarded"). -/
+theorem joint_bus_self_addressed_partial {cfg : Cfg ρ} (hr : cfg.Repaired) (he : NameEnc enc)
+    {h1 : List Bus.HStep} {es : List (BusRoute.Event ρ)} (hl : Linked enc Bus.State.init h1 es)
+    {s1 : Bus.State} {o1 : List Bus.HOut} (h : Bus.runL Bus.State.init h1 = .ok (s1, o1))
+    {c : Bus.Conn} (hc : s1.connected c = true) (m : BusRoute.Msg) (op : BusRoute.BusOp ρ)
+    (hm : m.dest = some BusRoute.busName) :
+    Bus.stepL s1 (.sendBus c) = .ok (s1, .delivered none) ∧
+    ∀ dl ∈ (BusRoute.step cfg (BusRoute.final cfg BusRoute.State.init es) (.msg (phi c) m op)).2.deliveries,
+      dl.what.isFwd = false :=
+  ⟨rfl, (joint_bus_invariant_partial (cfg := cfg) hr he hl h).sendBus hr hc m op hm⟩
 
 /-- In the joint system C14's owner of a well-known name is always a live connection (what C14's
 `owner_unique` cannot say on its own). -/
-theorem joint_bus_owner_is_live {cfg : Cfg ρ} (hr : cfg.Repaired) (he : NameEnc enc)
-    (hne : ∀ a, enc a ≠ [] ∧ enc a ≠ BusRoute.busName) (fgn : BusRoute.Name) (hf : fgn.head? = some ':')
-    {hs : List Bus.HStep} {s : Bus.State} {outs : List Bus.HOut}
-    (h : Bus.runL Bus.State.init hs = .ok (s, outs)) (j : ConnId) (n : Bus.Name)
-    (hj : BusRoute.Owns (BusRoute.final cfg BusRoute.State.init (gen enc fgn Bus.State.init hs)) j (enc n)) :
-    BusRoute.Live (BusRoute.final cfg BusRoute.State.init (gen enc fgn Bus.State.init hs)) j := by
-  have J := joint_bus_invariant (cfg := cfg) hr he hne fgn hf h
+theorem joint_bus_owner_is_live_partial {cfg : Cfg ρ} (hr : cfg.Repaired) (he : NameEnc enc)
+    {hs : List Bus.HStep} {es : List (BusRoute.Event ρ)} (hl : Linked enc Bus.State.init hs es)
+    {s : Bus.State} {outs : List Bus.HOut} (h : Bus.runL Bus.State.init hs = .ok (s, outs))
+    (j : ConnId) (n : Bus.Name) (hj : BusRoute.Owns (BusRoute.final cfg BusRoute.State.init es) j (enc n)) :
+    BusRoute.Live (BusRoute.final cfg BusRoute.State.init es) j := by
+  have J := joint_bus_invariant_partial (cfg := cfg) hr he hl h
   obtain ⟨evss, h2⟩ := Bus.lookups_change_nothing h
   exact J.owner_live he (Bus.reachable_of_run Bus.Reachable.init h2) j n hj
 
-/-- The hypotheses are satisfiable: the example history runs, its sender 2 is connected at the end, the
-name has an owner; `exEnc` / `exForeign` are admissible strings. -/
+/-- The hypotheses are satisfiable: the example history runs (and has a linked history by
+`linked_history_exists`, to which any owner-free traffic may be added), its sender 2 is connected at the
+end, the name has an owner; `exEnc` / `exForeign` are admissible strings; a message of any type with a
+forged sender is `Addressed`. -/
 example : ∃ s1 o1, Bus.runL Bus.State.init exHist = .ok (s1, o1) ∧ s1.connected 2 = true ∧
     (Bus.abs s1).ownerOf (.wellKnown 0) = some 2 ∧ (Bus.abs s1).ownerOf (.unique 1) = none ∧
-    NameEnc exEnc ∧ (∀ a, exEnc a ≠ [] ∧ exEnc a ≠ BusRoute.busName) ∧
-    exForeign.head? = some ':' ∧ ∀ k, exForeign ≠ BusRoute.uniqueNameOf k := by
+    NameEnc exEnc ∧ exForeign.head? = some ':' ∧ (∀ k, exForeign ≠ BusRoute.uniqueNameOf k) ∧
+    BusRoute.Addressed exMsg (destStr exEnc exForeign (.wellKnown 0)) := by
   obtain ⟨s, outs, hrun⟩ : ∃ s outs, Bus.runL Bus.State.init exHist = .ok (s, outs) := ⟨_, _, rfl⟩
   have hI := (Bus.runL_refines Bus.inv_init hrun).1
   have h3 : (Bus.runL Bus.State.init exHist).toOption.map (fun r =>
@@ -593,9 +617,20 @@ example : ∃ s1 o1, Bus.runL Bus.State.init exHist = .ok (s1, o1) ∧ s1.connec
       = some (true, some 2, none) := by decide
   rw [hrun] at h3
   simp only [Except.toOption, Option.map_some, Option.some.injEq, Prod.mk.injEq] at h3
-  refine ⟨s, outs, hrun, h3.1, ?_, ?_, exEnc_ok, exEnc_addressed, exForeign_ok.1, exForeign_ok.2⟩
+  refine ⟨s, outs, hrun, h3.1, ?_, ?_, exEnc_ok, exForeign_ok.1, exForeign_ok.2, rfl,
+    (exEnc_addressed 0).1, (exEnc_addressed 0).2⟩
   · rw [← Bus.routerLookup_abs hI]; exact h3.2.1
   · rw [← Bus.routerLookup_abs hI]; exact h3.2.2
+
+/-- A linked history with foreign traffic in it: an AddMatch by connection 0 and a broadcast by a dead index
+between the steps of the example. -/
+example : ∃ es : List (BusRoute.Event Unit), Linked exEnc Bus.State.init exHist es ∧ es.length = 9 := by
+  obtain ⟨s, outs, hrun⟩ : ∃ s outs, Bus.runL Bus.State.init exHist = .ok (s, outs) := ⟨_, _, rfl⟩
+  have hl := linked_history_exists (ρ := Unit) (enc := exEnc) hrun
+  refine ⟨.msg 0 (busCallMsg nameMember) (.addMatch ()) ::
+          .msg 7 (default : BusRoute.Msg) .always :: gen exEnc Bus.State.init exHist,
+    Linked.neutral _ _ _ (fun _ h => by cases h) (Linked.neutral _ _ _ (fun _ h => by cases h) hl), ?_⟩
+  decide
 
 end Txdbus.NamesRoute
 
@@ -634,6 +669,8 @@ end Txdbus.NamesRoute
 #print axioms Txdbus.NamesRoute.router_models_agree
 #print axioms Txdbus.NamesRoute.unicast_reaches_spec_owner
 #print axioms Txdbus.NamesRoute.wellknown_owner_is_live
-#print axioms Txdbus.NamesRoute.joint_bus_invariant
-#print axioms Txdbus.NamesRoute.joint_bus_unicast
-#print axioms Txdbus.NamesRoute.joint_bus_owner_is_live
+#print axioms Txdbus.NamesRoute.linked_history_exists
+#print axioms Txdbus.NamesRoute.joint_bus_invariant_partial
+#print axioms Txdbus.NamesRoute.joint_bus_unicast_partial
+#print axioms Txdbus.NamesRoute.joint_bus_self_addressed_partial
+#print axioms Txdbus.NamesRoute.joint_bus_owner_is_live_partial
